@@ -28,6 +28,43 @@ add("C17", "exploration", "runtime monitor: exhaustive enumeration of all 2^32 i
     "Trusted base: the closed-form oracles in checks/c17.go; time conversion reached through the verif hook.",
     "DESIGN.md §3 C17")
 
+add("C03", "exploration", "runtime monitor: routing compared with the slots the public container types declare (reflection), unique serial numbers; exhaustive file-type / accessor matrix",
+    "All 256 file_id.type values with the 17x17 accessor matrix are enumerated completely; routing is decided on PRNG interleavings of messages of all known types carrying unique serial numbers, compared with the routing the declared container types prescribe. A second file_id that restates / changes / drops the type is exercised separately.",
+    "Trusted base: the container struct declarations themselves (a *XMsg member is a single-valued slot, a []*XMsg member an ordered one) and the reference interpreter.",
+    "DESIGN.md §3 C03")
+add("C05", "exploration", "runtime monitor: Encode output parsed by an independent strict FIT grammar parser and reference interpreter, compared with the File",
+    "Every byte string Encode produces for PRNG-built Files is parsed by an independent strict grammar parser (header, sizes, CRCs by a bit-serial CRC, definitions before data), each definition is compared with the profile, the stream is interpreted by the reference interpreter and compared with the File's values, and the File's header/CRC fields are compared with the written bytes. Sampled.",
+    "Trusted base: harness/ref grammar parser and interpreter; hook table for struct positions.",
+    "DESIGN.md §3 C05")
+add("C06", "exploration", "runtime monitor: Decode(Encode(F)) compared with F under the statement's relaxations; every hosted profile field set alone",
+    "Round trips of PRNG-built in-domain Files and of every hosted profile field set alone (every file type hosting it, both byte orders) are compared field for field under exactly the relaxations the statement lists; component destinations by the reference component rule. Known findings F5/F6/F7 matched by exact prediction.",
+    "Trusted base: reference component rules, defect predictor (lib/defect.go) for the listed findings.",
+    "DESIGN.md §3 C06")
+add("C07", "exploration", "runtime monitor over three generations decode/encode/decode/encode/decode of accepted inputs (device corpus, model streams, CRC-fixed mutants)",
+    "For every accepted input the monitor checks that Encode neither panics nor fails, that its output passes CheckIntegrity and decodes to the same counts and values (strings/arrays up to profile lengths), and that a second round trip reproduces the content exactly. Sampled over device files, model streams and CRC-fixed byte mutants.",
+    "Trusted base: the library's own Decode as the observer of Encode output (values are cross-checked by C02/C05); known findings F5, F12a, F16 matched by signature.",
+    "DESIGN.md §3 C07")
+add("C12", "exploration", "runtime monitor: every decoded time field compared with a reference timestamp state machine over generated sequences",
+    "Sequences mixing explicit, compressed (all 32 offsets, rollovers, long runs) and local timestamps are decoded and every time field compared with a 30-line reference state machine. Sampled.",
+    "Trusted base: ref/interp.go time rules written from the FIT protocol; two corners the statement leaves open are not generated (see assumptions in the evidence).",
+    "DESIGN.md §3 C12")
+add("C13", "exploration", "runtime monitor: decoded content vs reference interpreter with 16 definition slots, unique serial numbers per message",
+    "Interleavings of definitions and data over up to 16 local types with redefinitions, compressed headers and undefined-slot records; every message carries a unique serial so a record decoded with the wrong definition or disturbed by another slot is identified. Sampled.",
+    "Trusted base: reference interpreter; hook table.",
+    "DESIGN.md §3 C13")
+add("C16", "exploration", "runtime monitor: 8 option combinations per stream through a counting reader and formatting logger; counts vs reference interpreter",
+    "Each generated stream (intact, truncated, CRC-corrupted, undefined local type) is decoded under all 8 option combinations; content, error and bytes consumed must agree, unknown lists must be absent/sorted/exact against the model (bounded by completed vs in-flight records on failures). Sampled.",
+    "Trusted base: reference interpreter's unknown-item counting (records of known messages per unlisted field number; records per unknown message number).",
+    "DESIGN.md §3 C16")
+add("C18", "exploration", "runtime monitor: decoded component destinations vs reference component rules; exact predictor of listed defects",
+    "Streams of the five component-bearing messages under every hosting file type, 1-3 files back to back and chained, compared with reference component rules (per-file accumulators). Deviations equal to the exact prediction of known findings F5/F6/F7 are reported as such; anything else is a violation. Sampled.",
+    "Trusted base: ref/components.go written from the SDK profile's Components/Bits/Accumulate columns; defect predictor shadowing the library's process-lifetime accumulator.",
+    "DESIGN.md §3 C18")
+add("C20", "exploration", "runtime monitor: String() of every constant and of all other 8/16-bit values (table generated from the tree's types.go at check time); byte-for-byte regeneration with the repository's stringer",
+    "The constant table is regenerated from the tree under test on every run; every constant and every other value of 8/16-bit types (complete) and sampled 32-bit values are printed and compared; the verif-tagged fitgen regenerates types_string.go which must be byte-identical.",
+    "Trusted base: go/parser reading types.go; the Type(n) convention of the Go stringer.",
+    "DESIGN.md §3 C20")
+
 ALL = ["C%02d" % i for i in range(1, 21)]
 
 def main():
